@@ -103,7 +103,7 @@ fn main() {
             if v != last {
                 last = v;
                 since = Instant::now();
-            } else if since.elapsed() > Duration::from_secs(secs + 20) {
+            } else if since.elapsed() > Duration::from_secs(secs * 10 + 30) {
                 st3.store(true, Ordering::Relaxed);
                 emit(&m3, "hang", "the runtime thread stopped making progress".into(), s3.load(Ordering::Relaxed),
                      g3.load(Ordering::Relaxed), v);
@@ -159,7 +159,9 @@ fn main() {
                 if let Some(i) = stalled.iter().position(|&r| r >= 5) {
                     return ("task_lost", format!("task {i} was not polled during 10000 polls of the main task: it fell out of the run queue"), rounds);
                 }
-                if t0.elapsed() > Duration::from_secs(secs) {
+                // long enough to have exercised something also on a machine that is busy with other work
+                let el = t0.elapsed();
+                if el > Duration::from_secs(secs) && (got.load(Ordering::Relaxed) >= 500 || el > Duration::from_secs(secs * 10)) {
                     return ("none", String::new(), rounds);
                 }
             }
